@@ -71,8 +71,9 @@ impl RawTableInner {
         &&& self.items as int + self.growth_left as int <= spec_cap_of(self.bucket_mask)
     }
 
-    // contract of rehash_in_place (evaluated natively: r_rehash_in_place): same allocation, same
-    // elements, every tombstone reclaimed
+    // contract of rehash_in_place: proved in unit `rehash` on the extracted text (no-unwind path: bucket
+    // count, items, growth_left = capacity - items; the function's text contains no allocator call) and
+    // evaluated natively on real tables (r_rehash_in_place)
     #[verifier::external_body]
     pub fn rehash_in_place(&mut self, hasher: &HasherDyn, size_of: usize, drop: DropFn)
         requires old(self).counts_ok(),
